@@ -404,6 +404,10 @@ def rule_r4(repo):
         ('first subset empty', [[], [5, 6]], [[], [[5, 6]]]),
         ('all subsets empty', [[], []], [[], []]),
         ('missing first', [[None, 4]], [[[None], [4]]]),
+        ('zero first', [[0, 4]], [[[0], [4]]]),
+        ('only value is 0.0', [[0.0]], [[[0.0]]]),
+        ('empty string first', [['', 1]], [[[''], [1]]]),
+        ('False first', [[False, True]], [[[False], [True]]]),
     ]
     for name, lvl2, lvl4 in shapes:
         flat1 = [x for sub in lvl2 for x in sub]
@@ -422,7 +426,7 @@ def rule_r4(repo):
             rr.instance('%s, level %d -> %r' % (name, lvl, want[lvl]))
             for r in res:
                 got = r.value if r.ok else r.describe()
-                if len(res) != 1 or not r.ok or got != want[lvl]:
+                if len(res) != 1 or not r.ok or got != want[lvl] or (lvl == 0 and type(got) is not type(want[0])):
                     rr.fail('nest:level%d' % lvl, fi.where, 'nest level %d on %s (per-subset values %r) yields %r; documented: %r' % (lvl, name, lvl2, got, want[lvl]),
                             witness={'level': lvl, 'per_subset': lvl2})
     rr.require_floor(4)
@@ -600,14 +604,19 @@ def rule_r7(repo, rule='C18.R7'):
                         return Sym('RESULT:%s:%d' % (a[1] if len(a) > 1 else '?', len(queries)))
                     return Stub('querent', {'query': query})
                 if text in ('exec', 'eval') and not isinstance(callee, Stub):
-                    runs.append((text, list(args), dict(kwargs)))
-                    return Sym('EVALUATED') if text == 'eval' else None
+                    return self2.executed(text, args, kwargs)
                 return self2.NOT_HANDLED
+
+            def executed(self2, name, args, kwargs):
+                glob = args[1] if len(args) > 1 else kwargs.get('globals')
+                runs.append((name, list(args), dict(kwargs), dict(glob) if isinstance(glob, dict) else None))
+                if isinstance(glob, dict) and name == 'exec':
+                    glob['assigned_in_run_%d' % self2.run_no] = self2.run_no        # what the script itself binds
+                return Sym('EVALUATED') if name == 'eval' else None
 
             def builtin(self2, name, args, kwargs, node, frame):
                 if name in ('exec', 'eval'):
-                    runs.append((name, list(args), dict(kwargs)))
-                    return Sym('EVALUATED') if name == 'eval' else None
+                    return self2.executed(name, args, kwargs)
                 if name == 'isinstance' and len(args) == 2 and isinstance(args[0], Sym):
                     return False          # a scripted result is not a QueryResult: handed through unflattened
                 return Interp.builtin(self2, name, args, kwargs, node, frame)
@@ -619,9 +628,11 @@ def rule_r7(repo, rule='C18.R7'):
         runner = oks[0].locals['self']
         msgs = [Obj('BufrMessage', {'filename': 'a.bufr', '__id__': 'A'}), Obj('BufrMessage', {'filename': 'b.bufr', '__id__': 'B'})]
         history = [msgs[0], msgs[0], msgs[1], msgs[0]]
+        handed_out = []
         for k, msg in enumerate(history):
             del queries[:]
             del runs[:]
+            it.run_no = k + 1
             res = it.run_function(run_fi, lambda: {'self': runner, 'bufr_message': msg}, self_class='ScriptRunner')
             rr.instance('%s mode, run %d of the history A A B A' % (mode, k + 1))
             key = 'run:%s' % mode
@@ -638,7 +649,7 @@ def rule_r7(repo, rule='C18.R7'):
             if len(runs) != 1 or runs[0][0] != mode:
                 rr.fail(key + ':executed', run_fi.where, 'run() in %s mode executes %s' % (mode, [(r[0], len(r[1])) for r in runs]))
                 continue
-            name, a, kw = runs[0]
+            name, a, kw, seen = runs[0]
             glob = a[1] if len(a) > 1 else kw.get('globals')
             loc = a[2] if len(a) > 2 else kw.get('locals')
             if repr(a[0]) != 'CODEOBJ' or not isinstance(glob, dict):
@@ -647,11 +658,19 @@ def rule_r7(repo, rule='C18.R7'):
             if loc is not None and loc is not glob:
                 rr.fail(key + ':namespace', run_fi.where, '%s gets a separate local namespace: names bound only there are invisible inside generator expressions, '
                         'comprehensions and lambdas of the script / filter expression (NameError)' % name)
-            names = dict((k2, v) for k2, v in glob.items() if k2 != '__builtins__')
+            if mode == 'exec' and any(glob is g for g, _ in handed_out):       # exec mode returns the namespace to the caller
+                rr.fail(key + ':namespace-reused', run_fi.where, 'run %d executes the code in the very dict an earlier run used (and, in exec mode, returned): the names the script '
+                        'bound for an earlier message are still bound for this one, and what the earlier run returned is rewritten' % (k + 1), witness={'run': k + 1, 'mode': mode})
+                continue
+            handed_out.append((glob, dict(glob)))
+            names = dict((k2, v) for k2, v in seen.items() if k2 != '__builtins__')
             got = dict((k2, (v.fields.get('__id__') if isinstance(v, Obj) else (repr(v).split(':')[1] if isinstance(v, Sym) and repr(v).startswith('RESULT:') else v))) for k2, v in names.items())
             want = {'PBK_0': '%length', 'PBK_1': '/001001', 'PBK_BUFR_MESSAGE': msg.fields['__id__'], 'PBK_FILENAME': msg.fields['filename']}
             if got != want:
                 rr.fail(key + ':bindings', run_fi.where, 'run %d binds %s; expected %s' % (k + 1, got, want), witness={'run': k + 1, 'mode': mode})
+        for n, (g, snap) in enumerate(handed_out if mode == 'exec' else []):
+            if set(g) != set(snap) or any(g[x] is not snap[x] for x in snap):
+                rr.fail('run:%s:earlier-namespace-rewritten' % mode, run_fi.where, 'the namespace of run %d no longer shows what that run bound once later runs have happened' % (n + 1))
     rr.require_floor(8)
     return rr
 
